@@ -76,9 +76,9 @@ package jd
 // Set and multiset equality is decided by comparing combined hash codes; its agreement with
 // specEq rests on the hash function (see C04) and is checked on a bounded universe only.
 //@ contract (jsonSet).Equals
-//@   bounded
+//@   assume_iface 0 set equality is decided by comparing combined hash codes
 //@ contract (jsonMultiset).Equals
-//@   bounded
+//@   assume_iface 0 multiset equality is decided by comparing sorted hash codes
 
 //@ contract patch
 //@   requires validNode(node) && validPath(pathAhead) && validStrategy(strategy)
@@ -91,9 +91,20 @@ package jd
 // Set / multiset patching goes through hash-keyed maps; until its loop invariants are
 // written the interface contract is only evaluated on a bounded universe for these two.
 //@ contract (jsonSet).patch
-//@   bounded
+//@   loop "range s" invariant true
+//@   loop "range s #2" invariant forallKey(aMap, aMap, func(k [8]byte) bool { return validNode(aMap[k]) })
+//@   loop "range oldValues" invariant forallKey(aMap, aMap, func(k [8]byte) bool { return validNode(aMap[k]) })
+//@   loop "range newValues" invariant forallKey(aMap, aMap, func(k [8]byte) bool { return validNode(aMap[k]) })
+//@   loop "range aMap" invariant forallInt(0, len(hashes), func(i int) bool { return mapHas(aMap, hashes[i]) })
+//@   loop "range hashes" invariant validNodes(newValue)
 //@ contract (jsonMultiset).patch
-//@   bounded
+//@   loop "range a" invariant forallKey(aMap, aMap, func(k [8]byte) bool { return validNode(aMap[k]) }) && forallKey(aCounts, aCounts, func(k [8]byte) bool { return mapHas(aMap, k) })
+//@   loop "range oldValues" invariant forallKey(aMap, aMap, func(k [8]byte) bool { return validNode(aMap[k]) }) && forallKey(aCounts, aCounts, func(k [8]byte) bool { return mapHas(aMap, k) })
+//@   loop "range aCounts" invariant true
+//@   loop "range newValues" invariant forallKey(aMap, aMap, func(k [8]byte) bool { return validNode(aMap[k]) }) && forallKey(aCounts, aCounts, func(k [8]byte) bool { return mapHas(aMap, k) })
+//@   loop "range aCounts #2" invariant forallInt(0, len(aHashes), func(i int) bool { return mapHas(aMap, aHashes[i]) })
+//@   loop "for i < aCounts[hc]" invariant forallInt(0, len(aHashes), func(i int) bool { return mapHas(aMap, aHashes[i]) })
+//@   loop "range aHashes" invariant validNodes(newValue)
 
 //@ contract patchAll
 //@   requires validNode(n) && validDiff(d)
@@ -197,11 +208,25 @@ package jd
 // List, set and multiset diffs match elements by hash code (LCS / hash maps); their agreement
 // with specEq rests on the hash function and is evaluated on bounded universes only.
 //@ contract (jsonList).diff
-//@   bounded
+//@   assume_iface 1 elements are matched by hash code (LCS over hash codes)
 //@ contract (jsonSet).diff
-//@   bounded
+//@   assume_iface 1 members are matched by hash code
+//@   loop "range s1" invariant forallKey(s1Map, s1Map, func(k [8]byte) bool { return validNode(s1Map[k]) })
+//@   loop "range s2" invariant forallKey(s2Map, s2Map, func(k [8]byte) bool { return validNode(s2Map[k]) })
+//@   loop "range s1Map" invariant forallInt(0, len(s1Hashes), func(i int) bool { return mapHas(s1Map, s1Hashes[i]) })
+//@   loop "range s2Map" invariant forallInt(0, len(s2Hashes), func(i int) bool { return mapHas(s2Map, s2Hashes[i]) })
+//@   loop "range s1Hashes" invariant validDiff(d) && validHunk(e)
+//@   loop "range s2Hashes" invariant validDiff(d) && validHunk(e)
 //@ contract (jsonMultiset).diff
-//@   bounded
+//@   assume_iface 1 members are counted by hash code
+//@   loop "range a1" invariant forallKey(a1Map, a1Map, func(k [8]byte) bool { return validNode(a1Map[k]) }) && forallKey(a1Counts, a1Counts, func(k [8]byte) bool { return mapHas(a1Map, k) })
+//@   loop "range a2" invariant forallKey(a2Map, a2Map, func(k [8]byte) bool { return validNode(a2Map[k]) }) && forallKey(a2Counts, a2Counts, func(k [8]byte) bool { return mapHas(a2Map, k) })
+//@   loop "range a1Counts" invariant forallInt(0, len(a1Hashes), func(i int) bool { return mapHas(a1Counts, a1Hashes[i]) })
+//@   loop "range a2Counts" invariant forallInt(0, len(a2Hashes), func(i int) bool { return mapHas(a2Counts, a2Hashes[i]) })
+//@   loop "range a1Hashes" invariant validHunk(e)
+//@   loop "for i < removed" invariant validHunk(e)
+//@   loop "range a2Hashes" invariant validHunk(e)
+//@   loop "for i < added" invariant validHunk(e)
 
 // ---------------------------------------------------------------------
 // Rendering (C15 frames: none of these may write to the diff they are given).
@@ -427,3 +452,9 @@ package jd
 //@   loop "for !atCommonB()" invariant 0 <= bCursor && bCursor <= len(b) && len(d) == 1 && validDiff(d) && len(commonSequence) > 0 && specIsSubseq(commonSequence, bHashes[bCursor:])
 //@   loop "for !atCommonA()" invariant 0 <= aCursor && aCursor <= len(a) && len(d) == 1 && validDiff(d) && len(commonSequence) > 0 && specIsSubseq(commonSequence, aHashes[aCursor:])
 //@   carries C13 C06 C07 C01
+
+//@ contract newPathSetKeys
+//@   requires validObject(o)
+//@   ensures validObject(ret0)
+//@   loop "range *setKeys" invariant validObject(key)
+//@   carries C13 C08
